@@ -463,6 +463,7 @@ pub fn run(tier: &str, seed: u64, out: &Path) -> i32 {
     part_items(&mut o, &mut rng, thorough);
     part_groups(&mut o, &mut rng, thorough);
     part_e2e(&mut o, &mut rng, thorough);
+    part_biglists(&mut o, &mut rng, thorough);
     part_probes(&mut o);
     o.finish(out, crate::util::jobs())
 }
@@ -1335,6 +1336,33 @@ fn gen_program(rng: &mut Rng, max_run: usize, with_twins: bool, with_trailing: b
     Program { elems, blank }
 }
 
+/// One run of 21..34 `use` or `mod` declarations that contains a class of rank-equal twins (imports that differ only
+/// in their alias; same-named modules under different `#[cfg]`s).  `slice::sort_unstable*` is an insertion sort - and
+/// so keeps equal elements in order - up to 20 elements: only a longer run can show whether the sort the code calls is
+/// stable, which is what "elements that rank equal keep their relative order" rests on.
+fn gen_huge_program(rng: &mut Rng, modsep: bool) -> Program {
+    let mut used = Used { modsep, ..Default::default() };
+    let k = rng.range(21, 34);
+    let mut run = if rng.chance(2, 3) {
+        let twins = rng.range(2, 4);
+        gen_run(rng, 'u', k, twins, 0, &mut used)
+    } else {
+        let mut v = gen_run(rng, 'm', k, 0, 0, &mut used);
+        let i = rng.below(v.len());
+        v[i].twin = Some(0);
+        v[i].attrs = vec!["#[cfg(feature = \"tw\")]".to_string()];
+        for j in 0..rng.range(2, 4) {
+            let mut e = v[i].clone();
+            e.attrs = vec![format!("#[cfg(feature = \"tw{}\")]", j)];
+            v.push(e);
+        }
+        v
+    };
+    shuffle(rng, &mut run);
+    let n = run.len();
+    Program { elems: run, blank: vec![0; n] }
+}
+
 fn cfg_of(c: &RCfg) -> rustfmt_nightly::Config {
     pool::build_config(&c.pairs(), &None).expect("configuration")
 }
@@ -1560,6 +1588,16 @@ fn part_e2e(o: &mut Outcome, rng: &mut Rng, thorough: bool) {
         }
         inputs.push((p, c));
     }
+    // large runs with rank-equal twins (see gen_huge_program): the only inputs on which a sort that is not stable shows
+    let nhuge = if thorough { 240 } else { 24 };
+    for _ in 0..nhuge {
+        let mut c = RCfg::random(rng);
+        c.reorder_imports = true;
+        c.reorder_modules = true;
+        let p = gen_huge_program(rng, c.edition2018);
+        inputs.push((p, c));
+    }
+    o.count_n("e2e:large-run programs (>20 declarations, rank-equal twins)", nhuge as u64);
     for (k, (p, c)) in inputs.into_iter().enumerate() {
         let mut p = p;
         // a trailing comment on the last declaration of a run is a known-dirty input (probe C11b)
@@ -1871,6 +1909,57 @@ fn part_e2e(o: &mut Outcome, rng: &mut Rng, thorough: bool) {
             };
             o.direct_failures.push(json!({"sig": sig, "what": "two orders of the same declarations format to different texts (beyond the relative order of alias-only twins)", "cfg": crate::gen::cfg_text(&c.pairs()), "src": v.src, "out": r.out, "expected": expected, "status": format!("{:?}", r.status)}));
         }
+    }
+}
+
+// ------------------------------------------------------------------ 5b. long import lists with alias-only twins
+
+/// `use root::{n1, n2 as x, n2 as y, …};` with 21..36 names: the list the real formatter prints must be the model's
+/// STABLE sort of the list as written (twins in their input order).  Lists this long are the only ones on which the
+/// `list.sort()` of `UseTree::normalize` can be told from an unstable sort.
+fn part_biglists(o: &mut Outcome, rng: &mut Rng, thorough: bool) {
+    let n = if thorough { 400 } else { 40 };
+    let mut cases: Vec<(Vec<Tree>, u16, String)> = vec![];
+    for _ in 0..n {
+        let k = rng.range(21, 36);
+        let names = gen_names(rng, k);
+        let mut l: Vec<Tree> = vec![];
+        for nm in &names {
+            let alias = if rng.chance(1, 6) { Some(alias_for(rng, nm)) } else { None };
+            l.push(Tree(vec![Seg::Ident(nm.clone(), alias)]));
+        }
+        let tw = rng.pick(&names).clone();
+        for j in 0..rng.range(2, 4) {
+            l.push(Tree(vec![Seg::Ident(tw.clone(), Some(format!("tw{}", j)))]));
+        }
+        shuffle(rng, &mut l);
+        let style = *rng.pick(&[2015u16, 2021, 2024, 2024]);
+        let src = format!("use root::{{{}}};\n", l.iter().map(|t| t.text()).collect::<Vec<_>>().join(", "));
+        cases.push((l, style, src));
+    }
+    let jobs: Vec<Job> = cases.iter().map(|(_, style, src)| Job { src: src.clone(), cfg: vec![("style_edition".into(), style.to_string()), ("edition".into(), "2018".into())], file_lines: None }).collect();
+    let res = pool::run_jobs(&jobs, crate::util::jobs(), Duration::from_secs(10));
+    for ((l, style, src), r) in cases.iter().zip(res.iter()) {
+        if !r.clean() {
+            o.count("biglist:not-clean-or-timeout");
+            continue;
+        }
+        let se = match style { 2015 => StyleEdition::Edition2015, 2021 => StyleEdition::Edition2021, _ => StyleEdition::Edition2024 };
+        let lout = match hi::parse_use_trees_raw(&r.out, se, Edition::Edition2018).ok().and_then(|v| if v.len() == 1 { dec_tree(&v[0]) } else { None }) {
+            Some(Tree(segs)) => match segs.last() {
+                Some(Seg::List(lo)) if segs.len() == 2 => lo.clone(),
+                _ => {
+                    o.direct_failures.push(json!({"sig": "c11:biglist-shape", "what": "the output is not `use root::{…};`", "src": src, "out": r.out}));
+                    continue;
+                }
+            },
+            None => {
+                o.direct_failures.push(json!({"sig": "c11:biglist-parse", "what": "the output does not parse to one import", "src": src, "out": r.out}));
+                continue;
+            }
+        };
+        o.count("biglist:lists");
+        o.push("corr", "sort.stable(long list in output)", format!("sort.stable {} {}", vbit(*style >= 2024), enc_trees(l)), enc_trees(&lout), format!("[style_edition={}] {}", style, enc_str(src)), true);
     }
 }
 
